@@ -7,10 +7,13 @@ OUT=seeded/RESULTS.txt
 for d in seeded/C*/; do
   id=$(basename $d)
   p=$(echo $id | cut -d- -f1)
+  # a change that breaks another property's clause is run against that property's check
+  cp=$(sed -n 's/.*"check_property": *"\([A-Z0-9]*\)".*/\1/p' $d/meta.json)
+  if [ -n "$cp" ]; then p=$cp; fi
   r=$(NO_REBUILD=1 ./tools/try_mutant.sh $p /verif/$d/patch.diff quick 2>&1)
   res=$(echo "$r" | grep RESULT | sed 's/ (.*//')
   sigs=$(echo "$r" | grep "violation signature" | sed 's/.*signature: //' | head -3 | tr '\n' ';')
-  echo "$id $res  $sigs" | tee -a $OUT
+  echo "$id $res [$p] $sigs" | tee -a $OUT
 done
 ./check build > /dev/null 2>&1
 git -C /repo status --short | head -3
